@@ -762,6 +762,20 @@ def run_shard(prop, tier, seed, shard, nshards, opts):
         for v in viol:
             if len(res['violations']) < 200:
                 res['violations'].append(v)
+    IDLE_OPS = [['in', 'k'], ['get', 'k'], ['len'], ['keys'], ['items'], ['load'], ['in', 'absent'], ['get', 'base']]
+    if shard < len(IDLE_OPS):
+        # directed: a reader that performed one read of an sqlite table archive (each read path in turn, on a key
+        # with several history rows) and then sits idle with its handle open must not block a writer
+        case = {'backend': {'kind': 'sql', 'memory': False}, 'workload': 'idle-reader', 's0': [['base', 'b0'], ['k', 'k0']],
+                'jobs': [{'ops': [['idle', 400], ['set', 'other', 'o-1'], ['set', 'other2', 'o-2']]},
+                         {'ops': [IDLE_OPS[shard], ['idle', 6500]]}],
+                'policy': 'random', 'free': True, 'history': 2, 'seed': shard, 'directed': True}
+        viol, cnt, dg = run_case(case)
+        res['cases'] += 1
+        res['counters']['c14_idle_reader_runs'] = res['counters'].get('c14_idle_reader_runs', 0) + 1
+        for k, v in cnt.items():
+            res['counters'][k] = res['counters'].get(k, 0) + v
+        res['violations'].extend(viol[:10])
     i = shard
     n_total = opts.get('cases', 400)
     free_every = opts.get('free_every', 5)
